@@ -556,4 +556,192 @@ theorem nextImmediate_twice_deferred (s : Server) (i : Nat) :
       rw [writeMsg_congr m ha.isOpen ha.peerGone ha.inline ha.conn ha.ver] at hx
       exact ⟨m, ha.infl m hm, he, hx⟩
 
+/-! ### PUBREL for an open exchange -/
+
+/-- the PUBCOMP record `processPubrel` files (and removes again) -/
+def pubcompMsg (s : Server) (k : Nat) : Msg :=
+  { type := 7, id := k, reasonCode := 0, created := NOW, expiry := NOW + s.caps.maxMessageExpiry }
+
+/-- the state after `processPubrel` for a stored exchange: the record under `k` replaced by the PUBCOMP and removed,
+    both quotas returned -/
+def pubrelDone (s : Server) (i k : Nat) : Server :=
+  let c1 := (flSet (getObj s i) (pubcompMsg s k)).1
+  let s1 := setObj s i c1
+  let r := flDelete (incSend (incRecv c1)) k
+  let s2 := setObj s1 i r.1
+  if r.2 then { s2 with info := { s2.info with inflight := s2.info.inflight - 1 } } else s2
+
+theorem flSet_fields (c : Client) (m : Msg) : (flSet c m).1.isOpen = c.isOpen ∧ (flSet c m).1.peerGone = c.peerGone ∧
+    (flSet c m).1.inline = c.inline ∧ (flSet c m).1.conn = c.conn ∧ (flSet c m).1.ver = c.ver := by
+  unfold flSet; split <;> exact ⟨rfl, rfl, rfl, rfl, rfl⟩
+
+theorem lt_of_flGet_some (s : Server) (i k : Nat) (m : Msg) (h : flGet (getObj s i) k = some m) : i < s.objs.length := by
+  apply Classical.byContradiction
+  intro hn
+  have : getObj s i = {} := by
+    unfold getObj
+    rw [List.getD_eq_getElem?_getD, List.getElem?_eq_none (Nat.le_of_not_lt hn)]
+    rfl
+  rw [this] at h
+  cases h
+
+theorem processPubrel_open_shape (s : Server) (i k : Nat) (pki : Msg) (ho : (getObj s i).isOpen = true)
+    (hp : (getObj s i).peerGone = false) (hin : (getObj s i).inline = false)
+    (hrec : flGet (getObj s i) k = some pki) :
+    processPubrel s i k 0 =
+      (pubrelDone s i k, [Out.wrote (getObj s i).conn (.ack (getObj s i).ver 7 k 0)], none) := by
+  have hi := lt_of_flGet_some s i k pki hrec
+  obtain ⟨f1, f2, f3, f4, f5⟩ := flSet_fields (getObj s i) (pubcompMsg s k)
+  have hd : dead (flSet (getObj s i) (pubcompMsg s k)).1 = false := dead_of_live (f1.trans ho) (f2.trans hp)
+  have hw : writeMsg (setObj s i (flSet (getObj s i) (pubcompMsg s k)).1) i (pubcompMsg s k) =
+      [Out.wrote (getObj s i).conn (.ack (getObj s i).ver 7 k 0)] := by
+    unfold writeMsg
+    rw [getObj_setObj_eq s i _ hi]
+    simp only [f1, f2, f3, f4, f5, ho, hp, hin]
+    rfl
+  have hv : (decide (0 ≥ 0x80) || !reasonValid 6 0) = false := by decide
+  unfold processPubrel
+  simp only [hrec, Option.isNone_some, Bool.false_eq_true, if_false, hv]
+  have hd' : ¬ (dead (flSet (getObj s i) (pubcompMsg s k)).1 = true) := by rw [hd]; exact Bool.false_ne_true
+  refine (if_neg hd').trans ?_
+  rw [← hw]
+  rfl
+
+theorem q08_flGet_flDelete_self (c : Client) (id : Nat) : flGet (flDelete c id).1 id = none := by
+  unfold flDelete flGet
+  simp only []
+  rw [List.find?_eq_none]
+  intro m hm
+  have := (List.mem_filter.mp hm).2
+  simpa using this
+
+/-- what `pubrelDone` leaves: stores and tables as they were, every other object untouched, the publisher's object live
+    as before and WITHOUT a record under `k` -/
+theorem pubrelDone_spec (s : Server) (i k : Nat) (hi : i < s.objs.length) :
+    (pubrelDone s i k).rmsgs = s.rmsgs ∧ (pubrelDone s i k).topics = s.topics ∧
+    (pubrelDone s i k).clients = s.clients ∧ (pubrelDone s i k).connOf = s.connOf ∧
+    (∀ x, x ≠ i → getObj (pubrelDone s i k) x = getObj s x) ∧
+    (getObj (pubrelDone s i k) i).isOpen = (getObj s i).isOpen ∧
+    (getObj (pubrelDone s i k) i).peerGone = (getObj s i).peerGone ∧
+    (getObj (pubrelDone s i k) i).conn = (getObj s i).conn ∧
+    flGet (getObj (pubrelDone s i k) i) k = none := by
+  unfold pubrelDone
+  extract_lets c1 s1 r s2
+  obtain ⟨f1, f2, _, f4, _⟩ := flSet_fields (getObj s i) (pubcompMsg s k)
+  have hl1 : i < s1.objs.length := by rw [show s1.objs.length = s.objs.length from setObj_length s i c1]; exact hi
+  have g2 : getObj s2 i = r.1 := getObj_setObj_eq s1 i r.1 hl1
+  have q : ∀ c : Client, (incSend (incRecv c)).isOpen = c.isOpen ∧ (incSend (incRecv c)).peerGone = c.peerGone ∧
+      (incSend (incRecv c)).conn = c.conn := by
+    intro c
+    unfold incSend incRecv
+    split <;> split <;> exact ⟨rfl, rfl, rfl⟩
+  obtain ⟨q1, q2, q3⟩ := q c1
+  have key : s2.rmsgs = s.rmsgs ∧ s2.topics = s.topics ∧ s2.clients = s.clients ∧ s2.connOf = s.connOf ∧
+      (∀ x, x ≠ i → getObj s2 x = getObj s x) ∧ (getObj s2 i).isOpen = (getObj s i).isOpen ∧
+      (getObj s2 i).peerGone = (getObj s i).peerGone ∧ (getObj s2 i).conn = (getObj s i).conn ∧
+      flGet (getObj s2 i) k = none := by
+    refine ⟨rfl, rfl, rfl, rfl, fun x hx => ?_, ?_, ?_, ?_, ?_⟩
+    · exact (getObj_setObj_ne s1 i x _ hx).trans (getObj_setObj_ne s i x _ hx)
+    · rw [g2]; exact q1.trans f1
+    · rw [g2]; exact q2.trans f2
+    · rw [g2]; exact q3.trans f4
+    · rw [g2]; exact q08_flGet_flDelete_self _ k
+  split
+  · exact key
+  · exact key
+
+theorem nextImmediate_flGet_none (s : Server) (i k : Nat) (h : flGet (getObj s i) k = none) :
+    flGet (getObj (nextImmediate s i).1 i) k = none := by
+  have ha := nextImmediate_after s i
+  unfold flGet at h ⊢
+  rw [List.find?_eq_none] at h ⊢
+  intro m hm
+  exact h m (ha.infl m hm)
+
+theorem receivePacket_pubrel_open (s : Server) (i k : Nat) (pki : Msg) (ho : (getObj s i).isOpen = true)
+    (hp : (getObj s i).peerGone = false) (hin : (getObj s i).inline = false)
+    (hrec : flGet (getObj s i) k = some pki) :
+    receivePacket s i (.pubrel k 0) =
+      ((nextImmediate (pubrelDone s i k) i).1,
+       [Out.wrote (getObj s i).conn (.ack (getObj s i).ver 7 k 0)] ++ (nextImmediate (pubrelDone s i k) i).2, none) := by
+  unfold receivePacket
+  simp only [processPubrel_open_shape s i k pki ho hp hin hrec]
+
+/-- **PUBREL for an open exchange, the op**: PUBCOMP to the publisher, then the release tail; the state is `pubrelDone`
+    (the record removed) but for those releases -/
+theorem step_recv_pubrel_open (s : Server) (conn i k : Nat) (pki : Msg) (hc : assocGet s.connOf conn = some i)
+    (ho : (getObj s i).isOpen = true) (hp : (getObj s i).peerGone = false) (hin : (getObj s i).inline = false)
+    (hrec : flGet (getObj s i) k = some pki) :
+    step s (.recv conn (.pubrel k 0)) =
+      ((nextImmediate (nextImmediate (pubrelDone s i k) i).1 i).1,
+       [Out.wrote (getObj s i).conn (.ack (getObj s i).ver 7 k 0)] ++ (nextImmediate (pubrelDone s i k) i).2 ++
+       (nextImmediate (nextImmediate (pubrelDone s i k) i).1 i).2) := by
+  have hi := lt_of_flGet_some s i k pki hrec
+  obtain ⟨_, _, _, _, _, d1, d2, _, _⟩ := pubrelDone_spec s i k hi
+  have ha := nextImmediate_after (pubrelDone s i k) i
+  have ho' := (ha.isOpen.trans d1).trans ho
+  have hp' := (ha.peerGone.trans d2).trans hp
+  have hping := receivePacket_pingreq_live _ i ho' hp'
+  rw [step]
+  unfold recvOn
+  simp only [hc, ho, receivePacket_pubrel_open s i k pki ho hp hin hrec, ho', hping,
+    Bool.not_true, Bool.false_eq_true, if_false, if_true, List.filter_cons, List.filter_append,
+    List.filter_nil, List.nil_append, List.append_assoc]
+  rw [List.filter_eq_self.mpr]
+  intro x hx
+  rcases nextImmediate_out_shape _ i x hx with ⟨_, _, _, _, e⟩ | ⟨_, _, _, _, _, e⟩ <;> rw [e]
+
+theorem not_InOpen_of_none {s : Server} {cid : Str} {k i : Nat} (hreg : assocGet s.clients cid = some i)
+    (hn : flGet (getObj s i) k = none) : ¬ InOpen s cid k := by
+  intro hO
+  obtain ⟨m, hm, _⟩ := hO.rec_at hreg
+  rw [hn] at hm; cases hm
+
+/-- … after which the exchange is closed, nothing was routed or retained, and every output went to the publisher -/
+theorem step_recv_pubrel_closes (s : Server) (conn i k : Nat) (cid : Str) (hc : assocGet s.connOf conn = some i)
+    (hreg : assocGet s.clients cid = some i) (hopen : InOpen s cid k)
+    (ho : (getObj s i).isOpen = true) (hp : (getObj s i).peerGone = false) (hin : (getObj s i).inline = false) :
+    ¬ InOpen (step s (.recv conn (.pubrel k 0))).1 cid k ∧
+    (step s (.recv conn (.pubrel k 0))).1.rmsgs = s.rmsgs ∧
+    (step s (.recv conn (.pubrel k 0))).1.topics = s.topics ∧
+    (∀ x, x ≠ i → getObj (step s (.recv conn (.pubrel k 0))).1 x = getObj s x) ∧
+    (∀ x ∈ (step s (.recv conn (.pubrel k 0))).2, ∃ pk, x = Out.wrote (getObj s i).conn pk) := by
+  obtain ⟨pki, hrec, _, _⟩ := hopen.rec_at hreg
+  have hi := lt_of_flGet_some s i k pki hrec
+  have e := step_recv_pubrel_open s conn i k pki hc ho hp hin hrec
+  obtain ⟨d_rm, d_tp, d_cl, _, d_ot, _, _, d3, d_none⟩ := pubrelDone_spec s i k hi
+  obtain ⟨a1, a2, a3⟩ := nextImmediate_store (pubrelDone s i k) i
+  obtain ⟨b1, b2, b3⟩ := nextImmediate_store (nextImmediate (pubrelDone s i k) i).1 i
+  have e1 : (step s (.recv conn (.pubrel k 0))).1 = (nextImmediate (nextImmediate (pubrelDone s i k) i).1 i).1 := by
+    rw [e]
+  have e2 : (step s (.recv conn (.pubrel k 0))).2 =
+      [Out.wrote (getObj s i).conn (.ack (getObj s i).ver 7 k 0)] ++ (nextImmediate (pubrelDone s i k) i).2 ++
+       (nextImmediate (nextImmediate (pubrelDone s i k) i).1 i).2 := by
+    rw [e]
+  have hcl : (nextImmediate (nextImmediate (pubrelDone s i k) i).1 i).1.clients = s.clients :=
+    ((nextImmediate_quiet _ i).clients.trans (nextImmediate_quiet _ i).clients).trans d_cl
+  have hn := nextImmediate_flGet_none _ i k (nextImmediate_flGet_none _ i k d_none)
+  refine ⟨?_, ?_, ?_, ?_, ?_⟩
+  · rw [e1]
+    exact not_InOpen_of_none (by rw [hcl]; exact hreg) hn
+  · rw [e1]; exact (b1.trans a1).trans d_rm
+  · rw [e1]; exact (b2.trans a2).trans d_tp
+  · rw [e1]; intro x hx; exact ((b3 x hx).trans (a3 x hx)).trans (d_ot x hx)
+  · rw [e2]
+    intro x hx
+    rw [List.append_assoc] at hx
+    rcases List.mem_append.mp hx with hx | hx
+    · rw [List.mem_singleton] at hx; exact ⟨_, hx⟩
+    · have := (nextImmediate_twice_out (pubrelDone s i k) i).2 x hx
+      rw [d3] at this
+      exact this
+
+theorem InNoEnds_app {s : Server} {cid : Str} {k : Nat} {a b : List Op} (h : InNoEnds s cid k (a ++ b)) :
+    InNoEnds s cid k a ∧ InNoEnds (run s a) cid k b := by
+  induction a generalizing s with
+  | nil => exact ⟨trivial, h⟩
+  | cons x xs ih =>
+    obtain ⟨h1, h2⟩ := ih h.2
+    exact ⟨⟨h.1, h1⟩, h2⟩
+
 end Mochi.Broker
